@@ -517,12 +517,14 @@ def rand_orth(rnd):
 
 
 def vscale(rnd):
+    if rnd.random() < 0.12:
+        return 10.0 ** rnd.choice([-14, -12, -10, 6, 9, 12])      # a covariance in other units, a loosely constrained solution
     return 10.0 ** rnd.uniform(-8, 2)
 
 
 MATRIX_CLASSES = ['spd', 'rank1', 'rank1-exact', 'rank1-axis', 'rank2', 'rank2-flat', 'zero', 'diagonal', 'cond',
-                  'cond1e8', 'circular', 'near-circular']
-MATRIX_WEIGHTS = [16, 12, 8, 5, 10, 6, 2, 9, 12, 8, 4, 8]
+                  'cond1e8', 'circular', 'near-circular', 'range']
+MATRIX_WEIGHTS = [16, 12, 8, 5, 10, 6, 2, 9, 12, 8, 4, 8, 7]
 
 
 def gen_matrix(rnd, cls=None):
@@ -584,6 +586,17 @@ def gen_matrix(rnd, cls=None):
         t = rnd.uniform(0, math.pi)
         G = np.array([[math.cos(t), -math.sin(t), 0.0], [math.sin(t), math.cos(t), 0.0], [0.0, 0.0, 1.0]])
         V = symm(G @ np.diag([c, c * (1 + dl), rnd.random()]) @ G.T) * s
+    elif cls == 'range':
+        # sigmas that differ by up to 1e6 inside one matrix (unconstrained height beside mm-level horizontals, or the reverse)
+        A = gmat(rnd, 3, 3)
+        Cm = A @ A.T + 0.5 * np.eye(3)
+        d = np.sqrt(np.diag(Cm))
+        Cm = np.eye(3) if rnd.random() < 0.4 else Cm / np.outer(d, d)
+        sig = [10.0 ** rnd.uniform(-3.5, -2)] * 3
+        big = 10.0 ** rnd.uniform(0.7, 3)
+        for ax in rnd.sample(range(3), rnd.choice([1, 1, 2])):
+            sig[ax] = big * rnd.uniform(0.5, 1.0)
+        V = symm(np.diag(sig) @ Cm @ np.diag(sig))
     else:
         raise ValueError(cls)
     assert np.array_equal(V, V.T)
